@@ -24,7 +24,7 @@ pub fn prop() -> Prop {
     }
 }
 
-fn gen(rng: &mut Rng, _idx: u64, tier: Tier) -> Case {
+fn gen(rng: &mut Rng, idx: u64, tier: Tier) -> Case {
     let n_ac = rng.range(1, 4) as usize;
     let addrs = gen::addresses(rng, n_ac);
     let mut acs: Vec<gen::Ac> = addrs.iter().map(|&a| gen::aircraft(rng, a)).collect();
@@ -43,6 +43,30 @@ fn gen(rng: &mut Rng, _idx: u64, tier: Tier) -> Case {
         3 => { for k in nine { args.push(format!("--filter={}", k)); } }
         4 => args.push(format!("--filter={}", rng.pick(&[1u32, 7, 19, 24, 31, 99, 32, 36, 37, 43, 49, 50, 52, 53, 4 + 256, 17 + 65536]))),
         _ => { for k in nine { if rng.chance(0.5) { args.push(format!("--filter={}", k)); } } }
+    }
+    if idx % 4000 == 7 {
+        // one very long single-format stream: counts beyond 16 bits; the only refresh comes at the end
+        let addrs = gen::addresses(rng, 2);
+        let mut acs: Vec<gen::Ac> = addrs.iter().map(|&a| gen::aircraft(rng, a)).collect();
+        let kind = *rng.pick(&[Kind::Df11, Kind::AirPos, Kind::Df4]);
+        let total = 65_530 + rng.range(0, 40) as usize;
+        let mut lines: Vec<(i64, Vec<u8>, String)> = vec![];
+        let tag = format!("{:?}", kind).to_lowercase();
+        for i in 0..total {
+            let f = gen::frame(rng, &mut acs[i % 2], kind, true);
+            lines.push((0, gen::line_of(rng, &f, false), tag.clone()));
+        }
+        for _ in 0..3 {
+            let f = gen::frame(rng, &mut acs[0], kind, true);
+            lines.push((2_000_000, gen::line_of(rng, &f, false), tag.clone()));
+        }
+        let mut ops = vec![];
+        // fixed-size groups keep the op count low; the last three lines get their own reads
+        let tail = lines.split_off(total);
+        for chunk in lines.chunks(512) { ops.push(Op::Data { dt_us: 0, bytes: crate::script::Bytes(chunk.iter().flat_map(|l| l.1.clone()).collect()), tag: tag.clone() }); }
+        ops.extend(gen::ops_of(rng, tail, Chunking::Line));
+        let script = Script::file(vec!["--delete-after=600".into(), "--count-df".into(), "--update=0".into()], ops);
+        return Case { property: "C16".into(), mode: "long".into(), script, args_b: None, log_level_b: None, meta: serde_json::Value::Null };
     }
     let long = rng.chance(0.02);
     let n = if long || (tier == Tier::Thorough && rng.chance(0.05)) { rng.range(270, 700) } else { rng.range(3, 60) } as usize;
